@@ -258,7 +258,11 @@ where
 
         let mut data = unsafe { vec.as_mut_bytes() };
         let mut pos = 0;
-        let mut last_offset_slot = None::<&mut [u8]>;
+        // Slot of the previous item (currently marked as the last one) and the extent to seal it with.
+        let mut prev = None::<(&mut [u8], L)>;
+
+        // Start from the empty state, so that a failure below always leaves a valid vector behind.
+        L::zero().emplace(data)?;
 
         for item_emplacer in self.iter {
             if data.len() < offset_size {
@@ -271,22 +275,22 @@ where
             let item = item_emplacer.emplace(payload)?;
             let payload_size = ceil_mul(item.size(), FlexVec::<T, L>::ALIGN);
             let offset = offset_size + payload_size;
-            L::from_usize(offset)
+            let sealed = L::from_usize(offset)
                 .and_then(|o| if o < L::max_value() { Some(o) } else { None })
                 .ok_or(Error {
                     kind: ErrorKind::InsufficientSize,
                     pos,
-                })?
-                .emplace(offset_slot)?;
-            last_offset_slot = Some(offset_slot);
+                })?;
+            // The new item becomes the last one, then the previous one gets its real extent.
+            L::max_value().emplace(offset_slot)?;
+            if let Some((prev_slot, prev_offset)) = prev.take() {
+                prev_offset.emplace(prev_slot)?;
+            }
+            prev = Some((offset_slot, sealed));
 
             data = payload.split_at_mut(payload_size).1;
             pos += offset;
         }
-        match last_offset_slot {
-            Some(offset_slot) => L::max_value().emplace(offset_slot)?,
-            None => L::zero().emplace(data)?,
-        };
 
         Ok(vec)
     }
